@@ -124,13 +124,55 @@ type target struct {
 	IP     netip.Addr
 	Domain string
 	Port   uint16
+
+	// harness HTTP client only
+	Spell  string // how an IPv6 literal is spelled: "" RFC 5952, "expanded", "nozip", "upper", "v4tail"
+	NoPort bool   // Host forms only: the port is left out (Port is then the documented default, 80)
 }
 
 func (t target) String() string {
 	if t.Kind == "domain" {
-		return fmt.Sprintf("%s(len %d) %q:%d", t.Kind, len(t.Domain), clip(t.Domain, 40), t.Port)
+		return fmt.Sprintf("%s(len %d) %q:%d noport=%v", t.Kind, len(t.Domain), clip(t.Domain, 40), t.Port, t.NoPort)
 	}
-	return fmt.Sprintf("%s %s:%d", t.Kind, t.IP, t.Port)
+	return fmt.Sprintf("%s %s:%d spelled %q noport=%v", t.Kind, t.IP, t.Port, t.host(), t.NoPort)
+}
+
+// spellIP6 writes an IPv6 address in one of the text forms of RFC 4291 section 2.2, without going
+// through the repository's (or netip's) formatter except for the canonical form.
+func spellIP6(ip netip.Addr, spell string) string {
+	a := ip.As16()
+	g := make([]string, 8)
+	switch spell {
+	case "expanded": // every group with four digits
+		for i := range g {
+			g[i] = fmt.Sprintf("%02x%02x", a[2*i], a[2*i+1])
+		}
+		return strings.Join(g, ":")
+	case "nozip": // no zero compression, no leading zeros
+		for i := range g {
+			g[i] = strconv.FormatUint(uint64(a[2*i])<<8|uint64(a[2*i+1]), 16)
+		}
+		return strings.Join(g, ":")
+	case "upper":
+		return strings.ToUpper(ip.String())
+	case "v4tail": // x:x:x:x:x:x:d.d.d.d
+		for i := range g[:6] {
+			g[i] = strconv.FormatUint(uint64(a[2*i])<<8|uint64(a[2*i+1]), 16)
+		}
+		return strings.Join(g[:6], ":") + fmt.Sprintf(":%d.%d.%d.%d", a[12], a[13], a[14], a[15])
+	}
+	return ip.String()
+}
+
+// host is the host part as the harness HTTP client spells it (IPv6 in brackets).
+func (t target) host() string {
+	switch t.Kind {
+	case "domain":
+		return t.Domain
+	case "v4":
+		return t.IP.String()
+	}
+	return "[" + spellIP6(t.IP, t.Spell) + "]"
 }
 
 // connAddr is how the request is handed to the real client functions.
@@ -169,15 +211,16 @@ func (t target) wire() []byte {
 
 // authority is the RFC 9110 §9.3.6 authority-form of the target.
 func (t target) authority() string {
-	p := strconv.FormatUint(uint64(t.Port), 10)
-	switch t.Kind {
-	case "domain":
-		return t.Domain + ":" + p
-	case "v4":
-		return t.IP.String() + ":" + p
-	default:
-		return "[" + t.IP.String() + "]:" + p
+	return t.host() + ":" + strconv.FormatUint(uint64(t.Port), 10)
+}
+
+// hostField is the RFC 9110 section 7.2 Host value / RFC 3986 authority of a non-CONNECT request:
+// uri-host [ ":" port ].
+func (t target) hostField() string {
+	if t.NoPort {
+		return t.host()
 	}
+	return t.authority()
 }
 
 // matches is the oracle for the address the server extracted. The wire cannot carry the
@@ -251,6 +294,17 @@ type s5Reply struct {
 
 	EarlySent bool // application bytes went out behind the request, before the reply
 	Retried   int  // further RFC 1929 messages attempted after a refusal (the write fails once the server has closed)
+	Pipelined int  // number of messages that went out behind the greeting before any answer was read
+}
+
+// s5Opts are the liberties the harness SOCKS5 client takes.
+type s5Opts struct {
+	Pushy     bool   // send the request even after X'FF' or a failed RFC 1929 status
+	EarlyMode int    // application bytes behind the request: 1 same write, 2 own write
+	Early     []byte //
+	Retries   []cred // pushy: further RFC 1929 messages after a refused one
+	Pipeline  int    // 1: greeting, sub-negotiation and request in one write; 2: in writes of their own, without waiting for answers
+	Guess     byte   // pipelining: the method the client expects the server to select (it knows its server)
 }
 
 func contains(list []byte, v byte) bool { return bytes.IndexByte(list, v) >= 0 }
@@ -268,9 +322,18 @@ func contains(list []byte, v byte) bool { return bytes.IndexByte(list, v) >= 0 }
 // retries (pushy only): after a failed RFC 1929 status the client sends these further sub-negotiation
 // messages without waiting for an answer (RFC 1929: the server MUST close the connection after a
 // failure, so none of them may be answered or honoured) and then its request.
-func rawSocks5(c io.ReadWriter, methods []byte, cr cred, cmd byte, tgt target, pushy bool, earlyMode int, early []byte, retries []cred) (r s5Reply) {
+//
+// Pipeline: the client sends the messages that follow the greeting (RFC 1929 message if it expects
+// method 2, then the request, then early data) before it has read any answer, in one write with the
+// greeting or in writes of their own. It then reads the answers in order. If the server refuses the
+// method or the credentials the request has been "pushed" by construction and must not be honoured.
+func rawSocks5(c io.ReadWriter, methods []byte, cr cred, cmd byte, tgt target, opt s5Opts) (r s5Reply) {
+	pushy, earlyMode, early, retries := opt.Pushy, opt.EarlyMode, opt.Early, opt.Retries
 	r = s5Reply{Sel: -1, Auth: -1, Rep: -1}
 	msg := append([]byte{5, byte(len(methods))}, methods...)
+	if opt.Pipeline > 0 {
+		return pipelinedSocks5(c, msg, cr, cmd, tgt, opt)
+	}
 	if _, r.Err = c.Write(msg); r.Err != nil {
 		r.Stage = "write-methods"
 		return
@@ -348,6 +411,91 @@ func rawSocks5(c io.ReadWriter, methods []byte, cr cred, cmd byte, tgt target, p
 		}
 		r.EarlySent = true
 	}
+	readS5Reply(c, &r)
+	return
+}
+
+// pipelinedSocks5 is rawSocks5 for a client that does not wait between its messages.
+func pipelinedSocks5(c io.ReadWriter, greeting []byte, cr cred, cmd byte, tgt target, opt s5Opts) (r s5Reply) {
+	r = s5Reply{Sel: -1, Auth: -1, Rep: -1}
+	msgs := [][]byte{greeting}
+	if opt.Guess == 2 && !cr.None {
+		am := []byte{1, byte(len(cr.U))}
+		am = append(am, cr.U...)
+		am = append(am, byte(len(cr.P)))
+		am = append(am, cr.P...)
+		msgs = append(msgs, am)
+	}
+	req := append([]byte{5, cmd, 0}, tgt.wire()...)
+	if opt.EarlyMode == 1 {
+		req = append(req, opt.Early...)
+	}
+	msgs = append(msgs, req)
+	if opt.EarlyMode == 2 {
+		msgs = append(msgs, opt.Early)
+	}
+	sentAll := true
+	if opt.Pipeline == 1 {
+		if _, r.Err = c.Write(bytes.Join(msgs, nil)); r.Err != nil {
+			r.Stage = "write-pipelined"
+			return
+		}
+	} else {
+		for i, m := range msgs {
+			if _, err := c.Write(m); err != nil {
+				if i == 0 {
+					r.Stage, r.Err = "write-methods", err
+					return
+				}
+				sentAll = false // the server has closed already (it refused): nothing more to say
+				break
+			}
+		}
+	}
+	r.Pipelined = len(msgs) - 1
+	r.EarlySent = sentAll && opt.EarlyMode > 0
+	var b [2]byte
+	if _, r.Err = io.ReadFull(c, b[:]); r.Err != nil {
+		r.Stage = "read-method-selection"
+		return
+	}
+	if b[0] != 5 {
+		r.Stage, r.Err = "method-selection-version", fmt.Errorf("VER=%#x", b[0])
+		return
+	}
+	r.Sel = int(b[1])
+	if b[1] != opt.Guess {
+		// refused (X'FF') or not what the client prepared for: its request went out regardless
+		r.Stage, r.Pushed = "method-refused", true
+		return
+	}
+	if b[1] == 2 {
+		if cr.None {
+			r.Stage = "no-credentials-to-send"
+			return
+		}
+		if _, r.Err = io.ReadFull(c, b[:]); r.Err != nil {
+			r.Stage = "read-auth-status"
+			return
+		}
+		if b[0] != 1 {
+			r.Stage, r.Err = "auth-version", fmt.Errorf("VER=%#x", b[0])
+			return
+		}
+		r.Auth = int(b[1])
+		if b[1] != 0 {
+			r.Stage, r.Pushed = "auth-refused", true
+			return
+		}
+	}
+	readS5Reply(c, &r)
+	return
+}
+
+// readS5Reply reads the RFC 1928 section 6 reply into r.
+func readS5Reply(c io.Reader, rp *s5Reply) {
+	r := *rp
+	defer func() { *rp = r }()
 	var h [4]byte
 	if _, r.Err = io.ReadFull(c, h[:]); r.Err != nil {
 		r.Stage = "read-reply"
@@ -442,6 +590,11 @@ type httpVariant struct {
 	Field   string // "Proxy-Authorization" in some letter case (field names are case-insensitive)
 	Pad     int    // size of an extra, irrelevant header field value (0 = none)
 	PadLast bool   // pad field after (true) or before (false) the credentials
+
+	// round 6: "" = CONNECT with the authority-form target; "origin" / "absolute" = a non-CONNECT request
+	// (Verb) in origin-form with a Host field, or in absolute-form (RFC 9112 section 3.2) with the same Host
+	Form string
+	Verb string
 }
 
 // readHead reads one response head byte by byte, so the harness client never reads past it.
@@ -481,7 +634,14 @@ func statusOf(head []byte) (int, error) {
 func rawHTTPConnect(c io.ReadWriter, authority string, creds []cred, v httpVariant) (statuses []int, err error) {
 	for _, cr := range creds {
 		var sb strings.Builder
-		sb.WriteString("CONNECT " + authority + " HTTP/1.1\r\nHost: " + authority + "\r\n")
+		switch v.Form {
+		case "origin":
+			sb.WriteString(v.Verb + " /c07/index.html?q=1 HTTP/1.1\r\nHost: " + authority + "\r\n")
+		case "absolute":
+			sb.WriteString(v.Verb + " http://" + authority + "/c07/index.html?q=1 HTTP/1.1\r\nHost: " + authority + "\r\n")
+		default:
+			sb.WriteString("CONNECT " + authority + " HTTP/1.1\r\nHost: " + authority + "\r\n")
+		}
 		pad := ""
 		if v.Pad > 0 {
 			pad = "X-Pad: " + strings.Repeat("p", v.Pad) + "\r\n"
